@@ -714,6 +714,10 @@ namespace bxdecay0 {
       if (!parsed_e1_cdf) {
         std::istringstream line_iss(raw_line);
         load_optimized_cdf_array(raw_line, _pimpl_->tab_prob.e1_cprobs);
+        if (_pimpl_->tab_prob.e1_cprobs.size() != _pimpl_->tab_prob.nsamples) {
+          throw std::logic_error(
+              "bxdecay0::dbd_gA::_load_tabulated_cdf_opt_: expected vs effective E1 cprob count match issue!");
+        }
         parsed_e1_cdf = true;
         // Prepare the number of e2 energy samples for a c.d.f. probs line:
         _pimpl_->tab_prob.e2_cprobs.reserve(_pimpl_->tab_prob.e1_cprobs.size());
@@ -772,6 +776,9 @@ namespace bxdecay0 {
         break;
       }
     } // while getline loop
+    if (!parsed_e1_cdf or (unsigned int)e2_cdf_count != _pimpl_->tab_prob.nsamples) {
+      throw std::logic_error("bxdecay0::dbd_gA::_load_tabulated_cdf_opt_: Missing E1 c.d.f. or E2 c.d.f. rows!");
+    }
     if (debug) {
       std::cerr << "[debug] bxdecay0::dbd_gA::_load_tabulated_cdf_opt_: Energy sampling step = "
                 << std::to_string(_pimpl_->tab_prob.energy_step) << " MeV" << std::endl;
